@@ -74,6 +74,7 @@ func idleFitReq(c *Ctx, isTA *ssa.Function, flows []*flagFlow) Req {
 }
 
 func runC01(c *Ctx) {
+	runC01PodRequest(c)
 	borrow(c, "O8", "C13", "O5", "Commit does not call Discard", "a failing commit must not undo allocations whose bind requests were already emitted: the pods get bound while the session has freed their resources")
 
 	p := c.P
@@ -165,10 +166,17 @@ func runC01Rest(c *Ctx, isTA *ssa.Function) {
 	paths := fx.retPaths(isTA, 0, WantTrue)
 	for i, rp := range paths {
 		construct := fmt.Sprintf("%s accepting path#%d", funcKey(isTA), i)
+		_, fitted := hasFact(rp.Facts, func(f Fact) bool { return isBaseLE(f, 1, "param:0:ni.Idle") })
 		if _, ok := hasFact(rp.Facts, func(f Fact) bool {
 			return f.Pol && isMethodCall(f.T, pkgResInfo+".ResourceRequirements", "IsEmpty") && rootParam(f.T.Args[0]) == 1
-		}); ok {
-			c.Hold("O2", "RET", construct, rp.Pos, "best-effort exit: the task requests nothing (ResReq.IsEmpty())")
+		}); ok && !fitted {
+			// "requests nothing" needs more than an empty ResReq: a gpu-memory request has GPU portion 0 in ResReq
+			// until it is accepted on a node, so it must be excluded explicitly
+			_, notMem := hasFact(rp.Facts, func(f Fact) bool {
+				return !f.Pol && f.T.Op == "call" && f.T.Fn != nil && f.T.Fn.Name() == "IsMemoryRequest" && len(f.T.Args) > 0 && rootParam(f.T.Args[0]) == 1
+			})
+			c.Check(notMem, "O2", "RET", construct, rp.Pos, "best-effort exit: the task requests nothing (ResReq.IsEmpty() ∧ ¬IsMemoryRequest())",
+				"the fit check is skipped for every task whose ResReq is empty — but a gpu-memory request has an empty ResReq until a node accepts it: such a pod is reported allocatable on Idle without any GPU being idle, and is bound onto a releasing GPU")
 			continue
 		}
 		d, ok := hasFact(rp.Facts, func(f Fact) bool { return isBaseLE(f, 1, "param:0:ni.Idle") })
@@ -472,4 +480,97 @@ func runC01PodSlots(c *Ctx) {
 		}
 	}
 	c.Floor("O6", "RET nil paths of pod-slot check", len(paths), 3)
+}
+
+// runC01PodRequest (O9): what is charged to a node for a pod is the pod's effective request as Kubernetes
+// defines it — containers summed, then the maximum with every init container, then the overhead on top, one
+// pod slot. (max(sum+overhead, init) under-counts a pod whose init container dominates.)
+func runC01PodRequest(c *Ctx) {
+	p := c.P
+	fn := c.Anchor("O9", "pkg/scheduler/api/pod_info", "", "getPodResourceRequest")
+	if fn == nil {
+		return
+	}
+	isSetMax := func(in ssa.Instruction) bool {
+		cc, ok := in.(ssa.CallInstruction)
+		if !ok || calleeOf(cc) == nil || calleeOf(cc).Name() != "SetMaxResource" {
+			return false
+		}
+		return relPkg(funcPkgPath(in.Parent())) == "pkg/scheduler/api/pod_info"
+	}
+	isOverheadAdd := func(in ssa.Instruction) bool {
+		cc, ok := in.(ssa.CallInstruction)
+		if !ok || calleeOf(cc) == nil || calleeOf(cc).Name() != "Add" {
+			return false
+		}
+		for _, a := range cc.Common().Args {
+			if strings.Contains(termOf(a).String(), ".Spec.Overhead") {
+				return true
+			}
+		}
+		return false
+	}
+	maxes := p.deepFind(fn, isSetMax, 2)
+	adds := p.deepFind(fn, isOverheadAdd, 2)
+	c.Floor("O9", "MPT init-container maxima", len(maxes), 1)
+	c.Floor("O9", "MPT overhead additions", len(adds), 1)
+	for _, h := range maxes {
+		arg := h.In.(ssa.CallInstruction).Common().Args[1]
+		c.Check(valueReadsField(arg, "InitContainers", 10, map[ssa.Value]bool{}), "O9", "PROV", funcKey(fn)+": the maximum is taken with the init containers' requests", instrPos(h.In), "derived from pod.Spec.InitContainers", "SetMaxResource is applied to "+trunc(termOf(arg).String(), 120)+", which is not derived from an init container's requests")
+		if loopHeaderOf(h.In.Block()) != nil {
+			ok, path := everyIterationPasses(h.In, func(x ssa.Instruction) bool { return x == h.In }, nil)
+			c.Check(ok, "O9", "MPT", funcKey(fn)+": every init container is folded into the maximum", instrPos(h.In), "each iteration reaches SetMaxResource", "an init container can be skipped ("+pathStr(path)+"): a pod whose largest init container is skipped is under-counted")
+		}
+	}
+	for _, h := range adds {
+		start := afterInstr(h.In)
+		start.Ctx = h.Chain
+		_, path, found := reachAvoiding([]cfgPos{start}, isSetMax, nil, nil)
+		c.Check(!found, "O9", "MPT", funcKey(fn)+": the overhead is added after the maximum with the init containers", instrPos(h.In), "no SetMaxResource after the overhead Add", "the pod overhead is added before the maximum with the init containers is taken (max(sum+overhead, init) instead of max(sum, init)+overhead): a pod whose init container dominates is charged up to the whole overhead too little, on the bind decision and in the snapshot of running pods ("+pathStr(path)+")")
+	}
+	// one pod slot, always
+	isPodSlot := func(in ssa.Instruction) bool {
+		mu, ok := in.(*ssa.MapUpdate)
+		if !ok {
+			return false
+		}
+		k, isC := mu.Value.(*ssa.Const)
+		return isC && k.Value != nil && k.Value.ExactString() == "1" && strings.Contains(termOf(mu.Key).String(), "pods")
+	}
+	_, path, found := reachAvoiding([]cfgPos{entryPos(fn)}, isReturn, isPodSlot, nil)
+	c.Check(!found, "O9", "MPT", funcKey(fn)+": every pod requests one pod slot", fn.Pos(), "ScalarResources()[pods] = 1 on every path", "a pod's request can be built without its pod slot ("+pathStr(path)+")")
+}
+
+// valueReadsField: the value is computed from a read of the named field (through loads, copies into locals,
+// conversions and call arguments).
+func valueReadsField(v ssa.Value, field string, depth int, seen map[ssa.Value]bool) bool {
+	if v == nil || depth == 0 || seen[v] {
+		return false
+	}
+	seen[v] = true
+	switch x := v.(type) {
+	case *ssa.FieldAddr:
+		if fieldOfAddr(x).Name() == field {
+			return true
+		}
+	case *ssa.Field:
+		if fieldOfVal(x).Name() == field {
+			return true
+		}
+	case *ssa.Alloc:
+		for _, r := range *x.Referrers() {
+			if st, ok := r.(*ssa.Store); ok && st.Addr == ssa.Value(x) && valueReadsField(st.Val, field, depth-1, seen) {
+				return true
+			}
+		}
+		return false
+	}
+	if in, ok := v.(ssa.Instruction); ok {
+		for _, op := range in.Operands(nil) {
+			if op != nil && *op != nil && valueReadsField(*op, field, depth-1, seen) {
+				return true
+			}
+		}
+	}
+	return false
 }
